@@ -61,6 +61,7 @@ class Engine(ExprMixin, CallMixin):
         self.f_callable = z3.Function('is_callable', Val, z3.BoolSort())
         self.f_opaque_call = z3.Function('opaque_call', Val, Val, Val)
         self.f_oseq_len = z3.Function('oseq_len', Val, z3.IntSort())
+        self.f_setof = z3.Function('set_of', Val, z3.ArraySort(Val, z3.BoolSort()))   # members of set(x) for an opaque iterable x
         self.f_oseq_item = z3.Function('oseq_item', Val, z3.IntSort(), Val)
         self.stable_lists = set()
         self.reset()
@@ -74,6 +75,7 @@ class Engine(ExprMixin, CallMixin):
         self.depth = 0
         self.cur_contract = None
         self.comp_target_class = None
+        self.set_class = None             # HeapClass of the result of set(opaque iterable)
         self.paths = 0
         self.dropped = []
         self.feas_cache = {}
@@ -384,6 +386,11 @@ class Engine(ExprMixin, CallMixin):
                 if is_exc(vals):
                     out.append(('raise', vals, s))
                     continue
+                if (isinstance(node.op, ast.Sub) and all(isinstance(v, SRef) and v.cls.kind == 'set' for v in vals)
+                        and vals[0].cls is vals[1].cls):
+                    r, s2 = self.set_difference(vals[0], vals[1], s, inplace=True)     # s -= t mutates s itself
+                    out.append(('next', None, s2))
+                    continue
                 for r, s2 in self.binop(node.op, vals[0], vals[1], s, node):
                     if is_exc(r):
                         out.append(('raise', r, s2))
@@ -637,6 +644,20 @@ class Engine(ExprMixin, CallMixin):
                     return self.wrap(cls.v, z3.Select(val, kk))
                 return STuple([self.wrap(cls.k, kk), self.wrap(cls.v, z3.Select(val, kk))])
             return dict(n=size, get=get, facts=facts, keys=ks, idx=idx)
+        if isinstance(it, SRef) and it.cls.kind == 'set':
+            cls = it.cls
+            dom, size = self.hload(st, it, 'dom'), self.hload(st, it, 'size')
+            ks = st.fresh.const('iter_members', z3.ArraySort(z3.IntSort(), cls.k.sort()))
+            idx = z3.Function(st.fresh.name('iter_idx'), cls.k.sort(), z3.IntSort())
+            j = z3.Int(st.fresh.name('j'))
+            k = z3.Const(st.fresh.name('k'), cls.k.sort())
+            facts = [size >= 0,
+                     z3.ForAll([j], z3.Implies(z3.And(0 <= j, j < size),
+                                               z3.And(z3.Select(dom, z3.Select(ks, j)), idx(z3.Select(ks, j)) == j))),
+                     z3.ForAll([k], z3.Implies(z3.Select(dom, k),
+                                               z3.And(0 <= idx(k), idx(k) < size, z3.Select(ks, idx(k)) == k)))]
+            self.trusted.add('set iteration visits every member exactly once (order unspecified); the set is not resized meanwhile')
+            return dict(n=size, get=lambda jt: self.wrap(cls.k, z3.Select(ks, jt)), facts=facts, keys=ks, idx=idx)
         if isinstance(it, SVal) and it.t.get_id() in self.stable_lists:
             n = self.f_oseq_len(it.t)
             return dict(n=n, get=lambda j: SVal(self.f_oseq_item(it.t, j)), facts=[n >= 0])
